@@ -90,14 +90,14 @@ function plan (seed, run, tier) {
   return { cfgs, files, lookups, ops, tag: allowMsgAt ? 'msg-at-allowed' : '' }
 }
 
-function fsFor (plan, file) {
-  // batch jobs need the external original maps of every version of that file
+function fsFor (plan, file, code) {
+  // the disk as it is when this version of the file is rewritten: its own external map (all
+  // versions of a file share one map path; a re-build overwrites it)
   const f = plan.files.find(x => x.path === file)
   if (!f) return null
-  const nodes = {}
-  let any = false
-  for (const v of f.versions) if (v.omap && v.omap.mapPath) { nodes[v.omap.mapPath] = { t: 'Text', v: v.omap.json }; any = true }
-  return any ? { nodes } : null
+  const v = f.versions.find(x => x.text === code)
+  if (v && v.omap && v.omap.mapPath) return { nodes: { [v.omap.mapPath]: { t: 'Text', v: v.omap.json } } }
+  return null
 }
 
 function jobs (plan) {
@@ -107,7 +107,7 @@ function jobs (plan) {
       const f = plan.files[op.f]; if (!f) continue
       const v = f.versions[op.v]; if (!v) continue
       const job = { cfg: plan.cfgs[op.rw || 0] || plan.cfgs[0], prng_seed: 1, file: f.path, code: v.text }
-      const ff = fsFor(plan, f.path)
+      const ff = fsFor(plan, f.path, v.text)
       if (ff) job.fs = ff
       out.push(job)
     }
@@ -124,7 +124,7 @@ function execute (plan, table) {
   const st = (k, n) => { rep.stats[k] = (rep.stats[k] || 0) + (n === undefined ? 1 : n) }
   const viol = (invariant, key, detail) => { if (!rep.violations.find(v => v.key === key)) rep.violations.push({ invariant, key, detail }) }
   const simfs = new SimFs()
-  const adapter = makeAdapter(table, { fsFor: (file) => fsFor(plan, file) })
+  const adapter = makeAdapter(table, { fsFor: (file, code) => fsFor(plan, file, code) })
   const { pkg } = loadPackage(adapter, simfs.module)
   const origPST = Object.getOwnPropertyDescriptor(Error, 'prepareStackTrace')
   const origLimit = Error.stackTraceLimit
